@@ -318,7 +318,9 @@ Inductive sender_ans :=
 | SNil                              (* (nil, nil) *)
 | SUser (domain : bytes).
 
-(* verdict of input.Verifier.VerifyJSONs for the one request *)
+(* verdict of input.Verifier.VerifyJSONs for the one request: VGood = the named server (for
+   pseudo-ID rooms: the event's SENDER key) has signed the redacted event with a key that was valid
+   at the event's origin_server_ts under the strict validity rule *)
 Inductive verify_ans := VErr | VBad | VGood.
 
 Record sj_input := {
